@@ -147,7 +147,7 @@ static void scalar_byte_split_decode_double(const uint8_t* data, int64_t count,
 
 static void scalar_unpack_bools(const uint8_t* input, uint8_t* output, int64_t count) {
     for (int64_t i = 0; i < count; i++) {
-        int byte_idx = (int)(i / 8);
+        size_t byte_idx = (size_t)(i / 8);
         int bit_idx = (int)(i % 8);
         output[i] = (input[byte_idx] >> bit_idx) & 1;
     }
